@@ -12,6 +12,7 @@ CONSTANTS
   CallbackOwnOnly = TRUE
   RemoveCancels = TRUE
   CycleSkipsLocked = FALSE
+  OfferSkipsLocked = TRUE
 INVARIANT TypeOK
 INVARIANT AtMostOneNegotiation
 INVARIANT SlotsTrackLive
